@@ -50,6 +50,34 @@ func schema(tag string) []dump.File {
 	}
 }
 
+// schemaIncludes: a module with ten submodules; a typedef that one submodule defines - differently
+// from tag to tag: the sets are independent, they only share their module names - is used by a
+// sibling that does not include it, so it is found through the module's include list. Few
+// scheduling points, so that every schedule with one preemption is explored: one set stops anywhere
+// in its pipeline while the other runs from start to end.
+func schemaIncludes(tag string) []dump.File {
+	base := []string{"string", "uint8", "int32", "boolean"}[int(tag[len(tag)-1]-'0')%4]
+	fs := []dump.File{{Name: "inc.yang", Text: `module inc { ` + H("inc") + ` include s0; include s1; include s2; include s3; include s4; include s5; include s6; include s7; include s8; include s9; identity top; leaf own { type level; } }`}}
+	for i := 0; i < 10; i++ {
+		body := fmt.Sprintf(`leaf l%d { type string; }`, i)
+		switch i {
+		case 3:
+			body = `typedef level { type ` + base + `; units "` + tag + `"; } grouping g3 { leaf in-` + tag + ` { type level; } } identity i3-` + tag + ` { base top; }`
+		case 7:
+			body = `container c7 { leaf lv { type level; } uses g3; leaf r { type identityref { base top; } } }`
+		}
+		fs = append(fs, dump.File{Name: fmt.Sprintf("s%d.yang", i), Text: fmt.Sprintf(`submodule s%d { belongs-to inc { prefix inc; } %s }`, i, body)})
+	}
+	return fs
+}
+
+func schemaFor(variant int, tag string) []dump.File {
+	if variant == 1 {
+		return schemaIncludes(tag)
+	}
+	return schema(tag)
+}
+
 // ---------------------------------------------------------------------------------------------
 // reader operations on a shared processed set
 
@@ -249,7 +277,7 @@ func execute(sc Scenario, prefix []int) (trace, nen, run []int, problem string) 
 			t := t
 			bodies = append(bodies, func() {
 				var r string
-				if pan, pt := core.Guard(func() { r = dump.Run(schema(fmt.Sprint("t", t)), dump.Options{Positions: true}).Summary() }); pan {
+				if pan, pt := core.Guard(func() { r = dump.Run(schemaFor(sc.Threads[t][0], fmt.Sprint("t", t)), dump.Options{Positions: true}).Summary() }); pan {
 					r = "PANIC: " + pt
 				}
 				results[t] = append(results[t], r)
@@ -276,11 +304,12 @@ func execute(sc Scenario, prefix []int) (trace, nen, run []int, problem string) 
 		case "pipelines":
 			// the sequential reference is computed after the concurrent run: in a fresh process the
 			// first execution then meets every lazily built package-level structure unbuilt
-			if _, ok := pipelineWant[t]; !ok {
-				pipelineWant[t] = dump.Run(schema(fmt.Sprint("t", t)), dump.Options{Positions: true}).Summary()
+			wk := t + 100*sc.Threads[t][0]
+			if _, ok := pipelineWant[wk]; !ok {
+				pipelineWant[wk] = dump.Run(schemaFor(sc.Threads[t][0], fmt.Sprint("t", t)), dump.Options{Positions: true}).Summary()
 			}
-			if results[t][0] != pipelineWant[t] {
-				return trace, nen, run, fmt.Sprintf("pipeline %d differs from its sequential run:\n%s\n--- sequential:\n%s", t, results[t][0], pipelineWant[t])
+			if results[t][0] != pipelineWant[wk] {
+				return trace, nen, run, fmt.Sprintf("pipeline %d differs from its sequential run:\n%s\n--- sequential:\n%s", t, results[t][0], pipelineWant[wk])
 			}
 		}
 	}
@@ -291,7 +320,14 @@ func scenarios(tier string) []Scenario {
 	var out []Scenario
 	n := len(ops)
 	// three readers, one operation each: all multisets of operations
-	quickOps := map[int]bool{0: true, 2: true, 5: true, 6: true, 7: true, 8: true, 9: true, 10: true, 11: true, 13: true, 15: true}
+	quickOps := map[int]bool{}
+	for i, o := range ops {
+		switch o.name {
+		case "ToEntry(a)", "Find(/a:c/b:y)", "Find(/va:c/va:x) from v", "InstantiatingModule(grafted y)", "InstantiatingModule(a:c/gl)", "InstantiatingModule(b:bc/gl)",
+			"FindModuleByNamespace(urn:a)", "FindModuleByNamespace(urn:b)", "FindModuleByNamespace(urn:none)", "ReadOnly+DefaultValues", "Print", "FindNode through uses":
+			quickOps[i] = true
+		}
+	}
 	for a := 0; a < n; a++ {
 		for b := a; b < n; b++ {
 			for d := b; d < n; d++ {
@@ -310,7 +346,10 @@ func scenarios(tier string) []Scenario {
 		}
 	}
 	out = append(out, Scenario{"pipelines", [][]int{{0}, {0}}})
+	// independent sets that share their module names only: a module with ten submodules (schemaIncludes)
+	out = append(out, Scenario{"pipelines", [][]int{{1}, {1}}})
 	if tier == "thorough" {
+		out = append(out, Scenario{"pipelines", [][]int{{1}, {1}, {1}}})
 		out = append(out, Scenario{"pipelines", [][]int{{0}, {0}, {0}}})
 	}
 	return out
